@@ -34,6 +34,7 @@ func checkC15(c *Ctx) {
 		c15Tables(c, p, m)
 		c12Mapping(c, p, m)
 		c15Handler(c, p, m)
+		handleDecision(c, p, m)
 		c15Bridge(c, p, m)
 	}
 	r.Rule("R12.5", "(shared with C12) no foreign level becomes terminating")
